@@ -56,6 +56,35 @@ CHECKS = {
         "assumptions": COMMON_ASSUMPTIONS + ["Members poll sequentially in a seeded order (the statement quantifies over poll orders, not over concurrent polls).",
                                              "A dropped socket is noticed by the server on its next read: the disconnect clause waits a bounded number of retries (200 x 5 ms)."],
     },
+    "C11": {
+        "level": "fault_enumeration",
+        "budget": {"quick": 50, "thorough": 900},
+        "min_histories": {"quick": 20, "thorough": 500},
+        "min_events": {"quick": {"journals_tampered": 3}, "thorough": {"journals_tampered": 40}},
+        "unit": "journal-producing histories (direct concurrent FileState::apply with injected append failures, and concurrent connections against the server)",
+        "rule": ("(a) Concurrency: 1-8 tasks call the real FileState::apply concurrently on one journal (what concurrent purge handlers under the shared system lock do) and 2-8 client connections "
+                 "mix exclusive-lock commands (create stream/user) with shared-lock commands (purge stream/topic) against the real server, with hook H4's schedule point between index allocation and append armed; "
+                 "(b) hook H5 fails every k-th append (k in 2..7); afterwards an independent parser (no iggy code, own crc32) checks indices consecutive from 0 in file order and checksums, the real loader and a full "
+                 "System::init must accept the file and the journal must hold exactly the acknowledged commands. (c) Tamper enumeration on the journals produced: every truncation length, byte mutations at every position "
+                 "(quick: 2 values per position for journals <= 2 KB, sampled beyond; thorough: 8 bit flips + 0x00 + 0xFF + 1 at every position), removal/duplication of every entry, swap of every adjacent pair, removal of "
+                 "every prefix; the loader must report an error or return a prefix after a cut exactly at an entry boundary. evaluations = journal-producing histories; distinct_nontrivial = distinct histories "
+                 "(each has its own seed, task count, fault period); tamper cases are counted in ops_by_kind."),
+        "assumptions": COMMON_ASSUMPTIONS + ["Write failures are injected at the persister (hook H5): as root on tmpfs no other way produces them; torn writes inside the state file are covered by the truncation enumeration.",
+                                             "Mutations that blow a length field up to gigabytes are run one at a time across shard processes (flock)."],
+    },
+    "C12": {
+        "level": "exploration",
+        "budget": {"quick": 45, "thorough": 900},
+        "min_histories": {"quick": 20, "thorough": 500},
+        "min_events": {"quick": {"poll_overlapping_inflight_send": 100}, "thorough": {"poll_overlapping_inflight_send": 5000}},
+        "rule": ("Many short concurrent histories: 2-6 producer connections send tagged batches to one partition while 1-4 consumer connections poll windows near the tail "
+                 "(offset/first/last) and a janitor flushes and runs background saves; tiny segments, small save thresholds, cache class per shard, both confirmation modes, "
+                 "hook H4 schedule points armed with a seeded yield/sleep policy. Every call is recorded with call/return instants from one clock; an offline checker judges the history "
+                 "against the final log. evaluations = histories; non-trivial = the final log interleaves batches of different producers; distinct_nontrivial = distinct "
+                 "(configuration class, producer sequence of the final log) pairs, i.e. distinct interleavings actually observed."),
+        "assumptions": COMMON_ASSUMPTIONS + ["Schedules are those the OS and tokio produce under stress plus seeded delays at hook H4's schedule points; no claim of schedule coverage.",
+                                             "Real-time visibility and atomic-visibility clauses are evaluated in wait-confirmation mode only (the statement restricts them to it)."],
+    },
     "C09": {
         "level": "exploration",
         "budget": {"quick": 40, "thorough": 600},
@@ -130,6 +159,15 @@ MANIFEST_TEXT = {
     "C06": {"level_text": "Exploration: every catalogue command is judged by a sequential reference catalogue (valid => accepted, invalid => refused and a full dump unchanged), ids returned must be fresh, lookups by id and by name must agree, deletes must cascade to directories and client memberships, no server panic.",
             "design_ref": "DESIGN.md §4 C06", "level_note": _DATA_NOTE,
             "technique": "runtime monitoring: sequential reference catalogue with full read-back"},
+    "C08": {"level_text": "Exploration: after every join/leave/disconnect/partition change the group structure reported by the server is checked (members, exclusive and complete assignment, even shares); every member poll must be served from its own share in rotation; next+auto-commit delivery across all members is checked per partition as exactly 0,1,2,... with the right content, and a final drain must hand over everything.",
+            "design_ref": "DESIGN.md §4 C08", "level_note": _DATA_NOTE,
+            "technique": "runtime monitoring: structural invariants on reported group state + exactly-once delivery checker"},
+    "C11": {"level_text": "Fault enumeration: journals produced by real concurrent traffic and by concurrent direct applies with injected append failures are parsed independently (indices, checksums), reloaded by the real loader and by System::init; then every truncation length, byte mutations at every position and every entry-level permutation are fed to the loader, which must report them or return a prefix after a clean cut.",
+            "design_ref": "DESIGN.md §4 C11", "level_note": "Trusted base: the harness' independent journal parser and crc32; hooks H4 (schedule point) and H5 (append fault).",
+            "technique": "runtime monitoring with fault injection + exhaustive mutation enumeration of recorded artefacts"},
+    "C12": {"level_text": "Exploration: thousands of short concurrent producer/consumer histories with recorded call/return instants, checked offline against the final log: no loss/duplication, contiguous batches in producer order, every poll a contiguous run agreeing with the final log, short results end on batch boundaries, acknowledged sends visible to later polls (wait mode).",
+            "design_ref": "DESIGN.md §4 C12", "level_note": "Trusted base: the offline checker; hook H4 schedule points with a seeded policy. Schedules are sampled, not enumerated.",
+            "technique": "runtime monitoring: client-boundary history + final-log (version order) checker under stress and injected delays"},
     "C09": {"level_text": "Rule layer: exhaustive (thorough) / sampled (quick) evaluation of the real permission rule functions over all permission records against the documented hierarchy, with isolation, monotonicity, no-residue and no-panic oracles; system layer: the handlers are observed over TCP/HTTP for unauthenticated, logged-out, deleted-user and permission-changed connections with the real rule functions as oracle.",
             "design_ref": "DESIGN.md §4 C09", "level_note": "Trusted base: PermModel (the documented hierarchy in its most permissive reading, one direction: performed => granted); fixture entities with fixed ids 1..3.",
             "technique": "runtime monitoring: exhaustive evaluation of pure rule functions + client-boundary observation of handlers"},
@@ -140,5 +178,5 @@ MANIFEST_TEXT = {
 
 NOT_APPLICABLE = [
     {"property_id": p, "reason": "check under construction in this framework (not yet claimed)"}
-    for p in ["C04", "C08", "C11", "C12", "C13", "C20"]
+    for p in ["C04", "C13", "C20"]
 ]
